@@ -1152,6 +1152,69 @@ def run_pingpong(ctx, case, yields=None):
         ctx.judge(True, case, sig)
 
 
+def run_pairs_blocking(ctx, case):
+    """as run_pairs, but the requesting thread BLOCKS (finite timeout) between the two events: the
+    second event - whose constructor takes a while, so that its trigger call overlaps the first
+    event being handed out - has to wake the blocked request like the first did"""
+    R = rig()
+    Ev, Sch = _CLS[0]
+    R.pty.drain_slave()
+    inp = R.ci.Input(R.pty.stream, keynames="bytes", sigint_event=False)
+
+    def slow_event(src=None, i=None):
+        time.sleep(case["ctor_s"])
+        return Ev(src=src, i=i)
+    ts_fast = inp.threadsafe_event_trigger(Ev)
+    ts_slow = inp.threadsafe_event_trigger(slow_event)
+    rounds = case["rounds"]
+    go = threading.Semaphore(0)
+    returned = {}
+
+    def helper():
+        for i in range(rounds):
+            go.acquire()
+            ts_fast(src="pa", i=i)
+            ts_slow(src="pb", i=i)
+            returned[i] = time.monotonic()
+    th = threading.Thread(target=helper, name="helper")
+    problems = []
+    to = 0.6
+    try:
+        with inp:
+            th.start()
+            for i in range(rounds):
+                go.release()
+                got = []
+                for _ in range(4):
+                    t0 = time.monotonic()
+                    r = describe(inp.send(to))
+                    t1 = time.monotonic()
+                    if r[0] != "none":
+                        got.append(r)
+                        if len(got) == 2:
+                            break
+                    elif i in returned and returned[i] < t1 - 0.3 and t0 < returned[i]:
+                        # the second trigger call returned while this request was blocked, 0.3 s and
+                        # more before it gave up: it was not woken
+                        problems.append(("missed-wakeup", {"round": i, "timeout": to, "got_so_far": got}))
+                        break
+                if problems or got != [("ev", "pa", i), ("ev", "pb", i)]:
+                    if not problems:
+                        problems.append(("events", {"round": i, "got": got}))
+                    break
+    finally:
+        for _ in range(rounds):
+            go.release()
+        th.join(10)
+        release_trigger_fds(inp, [ts_fast, ts_slow])
+    ctx.count("blocking_pair_rounds", rounds)
+    sig = ("C08", "pairs-blocking", rounds, case["ctor_s"], case.get("n", 0))
+    if problems:
+        ctx.judge(False, case, sig, "C08:" + problems[0][0], "both events, each waking the blocked request", problems[0][1])
+    else:
+        ctx.judge(True, case, sig)
+
+
 def run_pairs(ctx, case):
     """Two threadsafe triggers fired back to back by a helper thread - the second one with an
     event type whose constructor takes a while, as a user's may - while the requesting thread
@@ -1220,6 +1283,8 @@ def run_case(ctx, case):
         return run_pingpong(ctx, case)
     if case.get("kind") == "pairs":
         return run_pairs(ctx, case)
+    if case.get("kind") == "pairs-blocking":
+        return run_pairs_blocking(ctx, case)
     if not hasattr(ctx, "interleavings"):
         ctx.interleavings = set()
     if case["kind"] == "seq":
@@ -1294,6 +1359,8 @@ def run(ctx):
                          yields if i % 2 else None)
         for i in range(ctx.share(8 if quick else 600)):
             run_pairs(ctx, {"kind": "pairs", "rounds": 150, "ctor_s": rng.choice([0.0002, 0.001, 0.003]), "n": i})
+        for i in range(ctx.share(8 if quick else 300)):
+            run_pairs_blocking(ctx, {"kind": "pairs-blocking", "rounds": 40, "ctor_s": rng.choice([0.0005, 0.002, 0.005]), "n": i})
     finally:
         if yields:
             yields.uninstall()
